@@ -1,7 +1,7 @@
 (* C06 — accepted token responses are reported exactly as the server sent them.
    Statements only; proofs in proofs/Serde_proofs.v (decoder = model/Serde.v decode_token over the
    JSON AST of lib/Json.v; from text through from_body/json_parse). *)
-From OA Require Import Bytes Json Json_proofs Lower Serde SerdeSpec Serde_proofs Responses_proofs.
+From OA Require Import Bytes Json Json_proofs Lower Serde SerdeSpec Serde_proofs MapExt_proofs Responses_proofs.
 From Coq Require Import ZArith Permutation.
 Local Open Scope Z_scope.
 
@@ -73,6 +73,13 @@ Proof. exact token_type_case_insensitive. Qed.
 Theorem C06_instances :
   ef_good ef_empty (fun _ => true) token_names /\ ef_good ef_ext ext_canon token_names.
 Proof. exact (conj (ef_empty_good token_names) ext_good_token). Qed.
+
+(* a map-typed extension is handed exactly the members the library does not know itself: nothing
+   is swallowed by the library's struct, nothing known leaks into the extension *)
+Theorem C06_map_extension :
+  forall m v, decode_token ef_map (JObj m) = Some v ->
+  forall k, In k (tr_extra v) <-> In k (map fst m) /\ is_known token_names k = false.
+Proof. exact token_map_extension. Qed.
 
 Example C06_example :
   from_body (decode_token ef_ext)
